@@ -149,7 +149,7 @@ def mapping_unstructure_factory(type, converter: BaseConverter) -> UnstructureHo
             key_arg, val_arg = args
         else:
             # Probably a Counter
-            key_arg, val_arg = args, Any
+            key_arg, val_arg = args[0], Any
         key_handler = converter.get_unstructure_hook(key_arg, cache_result=False)
         value_handler = converter.get_unstructure_hook(val_arg, cache_result=False)
 
